@@ -98,6 +98,7 @@ pub proof fn lemma_zc_dec_concat(k: Keys, a: Seq<u8>, b: Seq<u8>)
     }
 }
 // C15: with the same starting keys (= the same password) decryption undoes encryption, and both sides end with the same keys
+// @props: C15 C01 -- ZipCrypto stream decryption inverts encryption for every key state and plaintext
 pub proof fn lemma_zc_dec_enc(k: Keys, p: Seq<u8>)
     ensures zc_dec(k, zc_enc(k, p)) == p
     decreases p.len()
